@@ -214,7 +214,8 @@ class Operation(ABC):
                 backed_grad = np.array(backed_grad, copy=False)
 
             if self.where is not True:
-                backed_grad = backed_grad * self.where
+                # (the product of 0D arrays is a numpy scalar, not an array)
+                backed_grad = np.asarray(backed_grad * self.where)
 
             backed_grad = self.grad_post_process_fn(backed_grad, var.shape)
             assert backed_grad.shape == var.shape, (backed_grad.shape, var.shape)
